@@ -79,6 +79,11 @@ func checkC08(c SubstCase) Outcome {
 				break
 			}
 		}
+	case "embedded-lookalike": // reference names that spell the other form, to the left of the swapped term
+		e1 := fmt.Sprintf("LicenseRef-%s OR DocumentRef-%s:LicenseRef-a OR %s", c.S2, c.S2, t1)
+		e2 := fmt.Sprintf("LicenseRef-%s OR DocumentRef-%s:LicenseRef-a OR %s", c.S2, c.S2, t2)
+		r1, r2 = Satisfies(e1, []string{c.Probe}), Satisfies(e2, []string{c.Probe})
+		d1, d2 = fmt.Sprintf("Satisfies(%q, {%q})", e1, c.Probe), fmt.Sprintf("Satisfies(%q, {%q})", e2, c.Probe)
 	default: // embedded in a compound expression, probe and a neutral id allowed
 		e1 := fmt.Sprintf("(ISC AND %s) OR (Zlib AND (%s))", t1, t1)
 		e2 := fmt.Sprintf("(ISC AND %s) OR (Zlib AND (%s))", t2, t2)
@@ -158,12 +163,15 @@ func TestC08_Sweep(t *testing.T) {
 			}
 			probes = append(probes, tb.UnrelatedIDs()[:3]...)
 			for _, probe := range probes {
-				for _, ctx := range []string{"expr", "allowed", "embedded", "embedded-siblings"} {
+				for _, ctx := range []string{"expr", "allowed", "embedded", "embedded-siblings", "embedded-lookalike"} {
 					for ei, ex := range [][2]string{{"", ""}, {exc, exc}, {exc, ""}, {"", exc}, {exc, exc2}} {
 						if ctx == "embedded" && ei > 1 {
 							continue
 						}
 						if ctx == "embedded-siblings" && ei != 0 && ei != 1 && ei != 3 {
+							continue
+						}
+						if ctx == "embedded-lookalike" && (ei > 1 || strings.Contains(s2, "+")) {
 							continue
 						}
 						c := SubstCase{X: x, Pair: pair, S1: s1, S2: s2, Probe: withExcText(probe, ex[1]), Exc1: ex[0], Ctx: ctx}
